@@ -538,6 +538,10 @@ class OdeModel:
                 l, r = a[2], a[3]
                 # the flag may be added as a bool, as int(flag) or as `1 if flag else 0` (is_has_thermal sees through these)
                 return (self.is_n_spec(l) and self.is_has_thermal(r)) or (self.is_n_spec(r) and self.is_has_thermal(l))
+            if b == ("const", 1) and a[0] == "ifexp" and self.is_has_thermal(a[1]) and self.is_n_spec(a[3]) and a[2][0] == "binop" and a[2][1] == "Add":
+                # the sum written as a choice: `n_spec + 1 if has_thermal else n_spec`
+                l, r = a[2][2], a[2][3]
+                return (self.is_n_spec(l) and r == ("const", 1)) or (self.is_n_spec(r) and l == ("const", 1))
         return False
 
     def decode_flat(self, idx, guards=()):
@@ -824,15 +828,19 @@ class OdeModel:
                 core = core[1] if core[0] == "copy" else core[2][0]
             if core[0] == "sub" and core[2][0] == "slice":
                 core = core[1]
-        elif s.array == "jacrhs":
-            s.problems.append(("viol", "no-removal", "Jacobian term does not remove the differentiated factor"))
+        noremoval = minus is None and s.array == "jacrhs"
         if contains(core, lambda t: isinstance(t, tuple) and t and t[0] in ("carried", "after", "unknown", "mutated")):
             s.problems.append(("unrec", "product", f"factor list not reconstructible: {show(core)[:100]}"))
             return
         m = as_map(core)
         if m is None:
-            s.problems.append(("unrec" if not_understood(core) else "viol", "product", f"factor list is not one factor per element of a list: {show(core)[:100]}"))
+            # a Jacobian product that is not `<list>.remove(..)` on a copy AND not the complete factor list either may drop the factor
+            # some other way (slices around the position, a filter by position): not understood, not "nothing removed"
+            s.problems.append(("unrec" if (noremoval or not_understood(core)) else "viol", "product", f"factor list is not one factor per element of a list: {show(core)[:100]}"))
             return
+        if noremoval:
+            # positive evidence: the product is over the COMPLETE factor list, as in the right-hand side
+            s.problems.append(("viol", "no-removal", "Jacobian term does not remove the differentiated factor"))
         bv, body, base, ifs = m
         s.seq = {"bv": bv, "body": body, "base": base, "ifs": ifs, "minus": minus}
         if ifs:
